@@ -53,6 +53,7 @@ def make_cases(run):
     # INCLUDE_DISALLOWED + allow(CUSTOM): initiators straddling allowed/disallowed PUs, a query before the last mutation
     cases.append(("b:disallowed-initiators", ["flags 1", two, "pre allowobj 1004 0 5", "pre allownode 0 0", "pre mseto 2 0 1001 0 500", "pre obs", "pre mseto 2 0 1001 1 1000",
                                               "pre mseto 2 0 1003 3 2000", "pre distadd 1004 8 5 0 1", "pre kobj 1003 3 2 k a", "shmem 1"], "boundary"))
+    cases.append(("b:disallowed-after-query", ["flags 1", two, "pre mseto 2 0 1001 0 500", "pre mseto 2 0 1001 1 1000", "pre mseto 2 0 1003 3 2000", "pre obs", "pre allowobj 1004 0 5", "shmem 1"], "boundary"))
     cases.append(("b:disallowed-republish", ["flags 1", two, "pre allowobj 1004 2 7", "pre mseto 2 1 1001 0 500", "pre obs", "pre mseto 2 1 1003 0 9", "republish 0 3"], "republish"))
     # level arrays: 16, 17, 18, 32, 33 levels at load, and the 17th / 33rd level created by a Group insertion after load
     for g in (14, 15, 16, 30, 31):
